@@ -44,6 +44,9 @@ def OP_EQ(
         left: func_xltypes.XlAnything,
         right: func_xltypes.XlAnything
 ) -> func_xltypes.XlBoolean:
+    for operand in (left, right):
+        if isinstance(operand, xlerrors.ExcelError):
+            return operand
     return left == right
 
 
@@ -52,6 +55,9 @@ def OP_NE(
         left: func_xltypes.XlAnything,
         right: func_xltypes.XlAnything
 ) -> func_xltypes.XlBoolean:
+    for operand in (left, right):
+        if isinstance(operand, xlerrors.ExcelError):
+            return operand
     return left != right
 
 
